@@ -506,7 +506,15 @@ class Chip:
 
     # ---- PTX engine
     def head_tx(self):
-        return next((e for e in self.tx if e["kind"] == "tx"), None)
+        """the TX FIFO is ONE queue: in PTX mode its head goes out whatever command loaded it - an ACK payload left over
+        from a turn as receiver is transmitted like any other payload (why the drivers flush on leaving RX mode)"""
+        if not self.tx:
+            return None
+        e = self.tx[0]
+        if e["kind"] == "ack" and "pid" not in e:
+            self.pid = (self.pid + 1) & 3
+            e.update(noack=False, pid=self.pid, load=0)
+        return e
 
     def kick(self):
         if self.busy or not self.ce or not self.r[0] & 2 or self.r[0] & 1 or self.r[7] & 0x10:
